@@ -8,8 +8,8 @@ after every step - the fault-free configuration underneath the callback-fault ti
 
 Comparison is bit for bit: every part of every register through the getters (floats as IEEE bit
 patterns, NaN equal to NaN), every repr() against the Rust Display text, every driver result.
-The only tolerance: matrix-valued getters of vector classes are compared as multisets (their row/column
-convention is an API choice C17 does not fix).
+The only tolerance: matrix-valued getters of vector classes may hand out rows of columns or columns of rows (an
+API choice C17 does not fix); vector-valued getters are compared entry by entry.
 """
 import argparse
 import json
@@ -592,19 +592,35 @@ def flat(obj):
 
 
 def getter_view(obj):
-    """value and, where the class has them, the derivative getters as multisets (None = absent part)"""
+    """value and, where the class has them, the derivative getters entry by entry, in the order handed out (None = absent part)"""
     def ms(v):
         if v is None:
             return None
         if isinstance(v, tuple) and all(x is None for x in v):
             return None
-        return sorted(fbits(x) for x in flat(v))
+        return [fbits(x) for x in flat(v)]
     out = {"value": fbits(obj.value)}
     if hasattr(obj, "first_derivative"):
         out["first"] = ms(obj.first_derivative)
     if hasattr(obj, "second_derivative"):
         out["second"] = ms(obj.second_derivative)
     return out
+
+
+def getter_matches(py, ref):
+    """py: what getter_view saw (a bit pattern, None, or a flat list); ref: the twin's view (bit pattern, None, or
+    {"r", "c", "rm"}: entries row by row).  Vectors: same entries in the same order.  Matrices: rows of columns or
+    columns of rows - nothing else."""
+    if ref is None or py is None or not isinstance(ref, dict):
+        return py == ref
+    rm = ref["rm"]
+    if py == rm:
+        return True
+    r, c = ref["r"], ref["c"]
+    if r > 1 and c > 1:
+        cm = [rm[i * c + j] for j in range(c) for i in range(r)]
+        return py == cm
+    return False
 
 
 def same_bits(py_floats, ref_hex):
@@ -768,8 +784,8 @@ def run_job(nd, job, ref):
     if drv in ("gradient", "hessian", "jacobian", "partial_hessian"):
         for i, (p, r) in enumerate(zip(seen.get("getters", []), ref.get("getters", []))):
             for k in ("value", "first", "second"):
-                if k in p and k in r and p[k] != r[k]:
-                    return {"at": i, "what": f"getter {k} of callback register {i}", "python": p[k], "rust": r[k]}
+                if k in p and k in r and not getter_matches(p[k], r[k]):
+                    return {"at": i, "what": f"getter {k} of callback register {i} (vectors entry by entry, matrices by rows or by columns)", "python": p[k], "rust": r[k]}
     return None
 
 
